@@ -230,6 +230,120 @@ theorem accepted_unsubscribed_silent (ev : List Bool) (rate : List Nat) (dflt : 
         show (jp.close.subs.modify k _)[k]? = _
         rw [List.getElem?_modify_eq, hs]; rfl, rfl⟩
 
+/-- **What acceptance means for the event keys** (any trace): two consecutive NOTIFYs to SID k (nothing sent to k and no
+    key preset of k in between) carry keys s₁ and s₂ = s₁ + 1, with 2^32−1 followed by 1. -/
+theorem accepted_keys_consecutive (ev : List Bool) (rate : List Nat) (dflt : List (Option Val))
+    (pre mid post : List Item) (k s1 s2 : Nat) (t1 t2 : Int) (u1 u2 : Str) (b1 b2 : List (Nat × Str))
+    (hmid : ∀ it ∈ mid, (∀ seq t url body, it ≠ Item.obs (.notify k seq t url body)) ∧ (∀ n, it ≠ Item.op (.setKey k n)))
+    (h : ok ev rate dflt (pre ++ Item.obs (.notify k s1 t1 u1 b1) :: (mid ++ Item.obs (.notify k s2 t2 u2 b2) :: post)) = true) :
+    s2 = specNextKey s1 := by
+  have h0 := ok_prefix h
+  rw [List.foldl_cons, List.foldl_append, List.foldl_cons] at h0
+  have hB := foldl_ok_mono post _ h0
+  have hm := step_ok_mono _ _ hB
+  have hA := foldl_ok_mono mid _ hm
+  have e1 := (notify_key hA).2
+  have e2 := Ent.foldl ⟨fun _ _ hp => hp, fun _ _ hp => hp, fun _ hp => hp⟩ mid _ e1 hmid
+  exact (notify_key hB).1 _ e2
+
+example : specNextKey 4294967295 = 1 ∧ specNextKey 0 = 1 ∧ specNextKey 41 = 42 := by decide
+
+/-- **… and for the initial event** (any trace): the first NOTIFY to a SID after the 200 answer that issued it carries key 0. -/
+theorem accepted_initial_key (ev : List Bool) (rate : List Nat) (dflt : List (Option Val))
+    (pre mid post : List Item) (cb to : Option Str) (k s : Nat) (g : Option Int) (t : Int) (u : Str) (b : List (Nat × Str))
+    (hmid : ∀ it ∈ mid, (∀ seq t url body, it ≠ Item.obs (.notify k seq t url body)) ∧ (∀ n, it ≠ Item.op (.setKey k n)))
+    (h : ok ev rate dflt (pre ++ Item.op (.subscribe .absent cb to) :: Item.obs (.resp 200 (some k) g)
+          :: (mid ++ Item.obs (.notify k s t u b) :: post)) = true) :
+    s = 0 := by
+  have h0 := ok_prefix h
+  rw [List.foldl_cons, List.foldl_cons, List.foldl_append, List.foldl_cons] at h0
+  have hB := foldl_ok_mono post _ h0
+  have hm := step_ok_mono _ _ hB
+  have hA := foldl_ok_mono mid _ hm
+  have e1 := (new_sub_accepted hA).2.2
+  have e2 := Ent.foldl ⟨fun _ _ hp => hp, fun _ _ hp => hp, fun _ hp => hp⟩ mid _ e1 hmid
+  exact (notify_key hB).1 _ e2
+
+/-- **What acceptance means for "a fresh SID"** (any trace): two new subscriptions that were both answered 200 carry
+    different SIDs (the later one is larger in the order of issue), whatever happened in between. -/
+theorem accepted_fresh_sid (ev : List Bool) (rate : List Nat) (dflt : List (Option Val))
+    (pre mid post : List Item) (cb to cb' to' : Option Str) (k k' : Nat) (g g' : Option Int)
+    (h : ok ev rate dflt (pre ++ Item.op (.subscribe .absent cb to) :: Item.obs (.resp 200 (some k) g)
+          :: (mid ++ Item.op (.subscribe .absent cb' to') :: Item.obs (.resp 200 (some k') g') :: post)) = true) :
+    k < k' := by
+  have h0 := ok_prefix h
+  rw [List.foldl_cons, List.foldl_cons, List.foldl_append, List.foldl_cons, List.foldl_cons] at h0
+  have hB := foldl_ok_mono post _ h0
+  have hm := step_ok_mono _ _ (step_ok_mono _ _ hB)
+  have hA := foldl_ok_mono mid _ hm
+  have l1 := (new_sub_accepted hA).2.1
+  have l2 := len_foldl mid (((pre.foldl Mon.step (Mon.init ev rate dflt)).step (.op (.subscribe .absent cb to))).step
+    (.obs (.resp 200 (some k) g)))
+  have l3 := (new_sub_accepted hB).1
+  omega
+
+/-- **What acceptance means for unknown SIDs** (any trace): the answer to an UNSUBSCRIBE or a renewal that names a SID
+    which was never issued (or to an UNSUBSCRIBE without SID) is a refusal (a status outside 2xx). -/
+theorem accepted_unknown_refused (ev : List Bool) (rate : List Nat) (dflt : List (Option Val))
+    (pre post : List Item) (o : Op) (st : Nat) (a : Option Nat) (b : Option Int)
+    (ho : o = .unsubscribe .unknown ∨ o = .unsubscribe .absent ∨ ∃ cb to, o = .subscribe .unknown cb to)
+    (h : ok ev rate dflt (pre ++ Item.op o :: Item.obs (.resp st a b) :: post) = true) :
+    refused st = true := by
+  have h0 := ok_prefix h
+  rw [List.foldl_cons, List.foldl_cons] at h0
+  have hB := foldl_ok_mono post _ h0
+  obtain ⟨jp, hjp⟩ : ∃ j, j = pre.foldl Mon.step (Mon.init ev rate dflt) := ⟨_, rfl⟩
+  rw [← hjp] at hB
+  rcases ho with rfl | rfl | ⟨cb, to, rfl⟩
+  · have e : ((jp.step (.op (.unsubscribe .unknown))).step (.obs (.resp st a b))).ok
+        = (jp.close.ok && refused st) := rfl
+    rw [e] at hB; simp only [Bool.and_eq_true] at hB; exact hB.2
+  · have e : ((jp.step (.op (.unsubscribe .absent))).step (.obs (.resp st a b))).ok
+        = (jp.close.ok && refused st) := rfl
+    rw [e] at hB; simp only [Bool.and_eq_true] at hB; exact hB.2
+  · have e : ((jp.step (.op (.subscribe .unknown cb to))).step (.obs (.resp st a b))).ok
+        = (jp.close.ok && refused st) := rfl
+    rw [e] at hB; simp only [Bool.and_eq_true] at hB; exact hB.2
+
+/-- **What acceptance means for the event body** (any trace): the body of every accepted NOTIFY has exactly one entry
+    per evented variable — none for the others — and each text carries the value the variable has after the
+    assignments made so far (`valuesAfter`: the defaults overwritten by the `set` / `setMany` operations before it). -/
+theorem accepted_body (ev : List Bool) (rate : List Nat) (dflt : List (Option Val)) (pre post : List Item)
+    (k s : Nat) (t : Int) (u : Str) (body : List (Nat × Str))
+    (h : ok ev rate dflt (pre ++ Item.obs (.notify k s t u body) :: post) = true) :
+    bodyOk ev (valuesAfter dflt pre) body = true := by
+  have h0 := ok_prefix h
+  rw [List.foldl_cons] at h0
+  have hN := foldl_ok_mono post _ h0
+  have hb := notify_body hN
+  obtain ⟨c1, c2, _⟩ := foldl_cur pre (Mon.init ev rate dflt)
+  rw [c1, c2] at hb
+  exact hb
+
+/-- **What acceptance means for expiry and renewal** (any trace): after a renewal of SID k that was answered 200 with
+    granted timeout g at virtual time T (= the clock advances so far), every later NOTIFY to k — until the next
+    renewal of k — is sent strictly before T + g seconds: "renewal extends the subscription" (the bound moves to the
+    new T + g) and "expired subscribers receive nothing further". -/
+theorem accepted_renewal_bounds (ev : List Bool) (rate : List Nat) (dflt : List (Option Val))
+    (pre mid post : List Item) (k s : Nat) (cb to : Option Str) (a : Option Nat) (g t : Int) (u : Str) (b : List (Nat × Str))
+    (hmid : ∀ it ∈ mid, ∀ cb' to', it ≠ Item.op (.subscribe (.known k) cb' to'))
+    (h : ok ev rate dflt (pre ++ Item.op (.subscribe (.known k) cb to) :: Item.obs (.resp 200 a (some g))
+          :: (mid ++ Item.obs (.notify k s t u b) :: post)) = true) :
+    t < elapsed pre + g * usPerS := by
+  have h0 := ok_prefix h
+  rw [List.foldl_cons, List.foldl_cons, List.foldl_append, List.foldl_cons] at h0
+  have hB := foldl_ok_mono post _ h0
+  have hm := step_ok_mono _ _ hB
+  have hA := foldl_ok_mono mid _ hm
+  have e1 := renew_accepted hA
+  have e2 := ExpInv.foldl mid _ e1 hmid
+  have := notify_before_expiry e2.ent hB
+  obtain ⟨_, _, c3⟩ := foldl_cur pre (Mon.init ev rate dflt)
+  rw [c3] at this
+  have h00 : (Mon.init ev rate dflt).target = 0 := rfl
+  rw [h00] at this
+  omega
+
 /-! ### non-vacuity: a concrete history with a burst inside a moderation interval, a second subscriber whose
     initial delivery is still in flight when a variable changes, an expiry and a timer firing; the theorem's
     hypothesis holds and the trace is the expected, non-trivial one -/
@@ -349,5 +463,17 @@ theorem non_evented_absent (ev : List Bool) (vals : List (Option Val)) (i : Nat)
         refine ⟨by omega, ?_⟩
         have : i - o = (i - (o + 1)) + 1 := by omega
         rw [this]; simpa using h2
+
+-- the hypotheses of the acceptance theorems are met by accepted traces: a renewal granted 5 s, an event before and
+-- (rejected) at the new expiry; consecutive keys; a second subscription with the next SID
+example : J 0 [exSub, ex200 0, exN 0 0 0 0, .op (.subscribe (.known 0) none none), .obs (.resp 200 (some 0) (some 5)),
+    .op (.adv 4999999), .op (.set 0 (.int 5)), .obs (.trig 0 4999999), exN 0 1 4999999 5] = true := by decide
+example : J 0 [exSub, ex200 0, exN 0 0 0 0, .op (.subscribe (.known 0) none none), .obs (.resp 200 (some 0) (some 5)),
+    .op (.adv 5000000), .op (.set 0 (.int 5)), .obs (.trig 0 5000000), exN 0 1 5000000 5] = false := by decide
+example : J 0 [exSub, ex200 0, exN 0 0 0 0, exSub, ex200 1, exN 1 0 0 0, .op (.set 0 (.int 5)), .obs (.trig 0 0),
+    exN 0 1 0 5, exN 1 1 0 5] = true := by decide
+example : elapsed [exSub, .op (.adv 7), ex200 0, .op (.adv 5)] = 12 := by decide
+example : valuesAfter [some (.int 0), none] [.op (.set 1 (.bool true)), .op (.setMany [(0, .int 4), (5, .int 9), (0, .int 6)])]
+    = [some (.int 6), some (.bool true)] := by decide
 
 end Upnp.C15
